@@ -278,3 +278,13 @@ func gexpr(e gast.Expression) *ir.Node {
 }
 
 var _ = fmt.Sprint
+
+// JSValidity reports whether the reference parser accepts the text; limited is
+// true when it could not process the text at all (no verdict).
+func JSValidity(src string) (valid bool, limited bool) {
+	_, err := safeParseFile(src)
+	if err != nil && errors.Is(err, ErrRefLimit) {
+		return false, true
+	}
+	return err == nil, false
+}
